@@ -14,10 +14,11 @@ for d in seeded/*/; do
   res=""
   for c in $checks; do
     out=$(./check $c 2>&1); rc=$?
-    res="$res $c=$rc"
+    nv=$(echo "$out" | grep -o 'violations=[0-9]*' | tail -1 | cut -d= -f2)
+    res="$res $c=$rc(${nv:-?})"
   done
   git -C "$VERIF_REPO" apply -R "$ROOT/${d}patch.diff"
-  caught=no; case "$res" in *=1*) caught=yes;; esac
+  caught=no; case "$res" in *=1\(*) caught=yes;; esac
   echo "$id: caught=$caught ($res )"
 done
 ./build.sh 0 >/dev/null 2>&1
